@@ -1,14 +1,16 @@
 // C08 bounded stand-in: sharded-directory builder vs boxo's HAMT, and reading boxo-written HAMTs.
 //
 // Bounds (quick | thorough):
-//   parity: ALL fanouts {8,16,32,64,128,256,512,1024}; entry sets: 1 entry; murmur3-colliding names
-//     (4 sharing 21 bits + 3 sharing 12 bits); mixed; random names (ascii/unicode/spaces/hex-like)
-//     of sizes {2,17,150,400} x 1 draw | {2,17,150,400,3000} x 4 draws; three different child
-//     nodes with different cumulative sizes. builder link == boxo root CID and size == boxo Size().
-//   histories: fanouts {8,256} | all; 10 | 80 random Set/Remove histories of 60..400 operations over
-//     a pool of 120 names (incl. colliding ones), overwrites included; the resulting boxo HAMT is
-//     read back through Reify: Length, iteration (each name once, right link), member lookups and
-//     lookups of removed names must equal boxo's EnumLinks / the history's model.
+//
+//	parity: ALL fanouts {8,16,32,64,128,256,512,1024}; entry sets: 1 entry; murmur3-colliding names
+//	  (4 sharing 21 bits + 3 sharing 12 bits); mixed; random names (ascii/unicode/spaces/hex-like)
+//	  of sizes {2,17,150,400} x 2 draws | {2,17,150,400,3000} x 4 draws; three different child
+//	  nodes with different cumulative sizes. builder link == boxo root CID and size == boxo Size().
+//	histories: fanouts {8,16,256,1024} | all; 25 | 80 random Set/Remove histories of 60..400 operations over
+//	  a pool of 120 names (incl. colliding ones), overwrites included; the resulting boxo HAMT is
+//	  read back through Reify: Length, iteration (each name once, right link), member lookups and
+//	  lookups of removed names must equal boxo's EnumLinks / the history's model.
+//
 // Oracle: boxo v0.24.0 ipld/unixfs/hamt. Seeded by VERIF_SEED.
 package c08
 
@@ -54,13 +56,16 @@ func TestBounded(t *testing.T) {
 
 	var sets [][]string
 	var labels []string
-	add := func(label string, names []string) { sets = append(sets, vp.Dedup(names)); labels = append(labels, label) }
+	add := func(label string, names []string) {
+		sets = append(sets, vp.Dedup(names))
+		labels = append(labels, label)
+	}
 	add("one", []string{"a"})
 	coll := append(vp.Colliding(4, 21, rng), vp.Colliding(3, 12, rng)...)
 	add("collide", coll)
 	add("mixed", append(append([]string{}, coll...), vp.Names(40, rng)...))
 	for _, n := range vp.Pick([]int{2, 17, 150, 400}, []int{2, 17, 150, 400, 3000}) {
-		for d := 0; d < vp.Pick(1, 4); d++ {
+		for d := 0; d < vp.Pick(2, 4); d++ {
 			add(fmt.Sprintf("rand%d#%d", n, d), vp.Names(n, rng))
 		}
 	}
@@ -109,8 +114,8 @@ func TestBounded(t *testing.T) {
 	}
 
 	pool := vp.Dedup(append(append(vp.Names(100, rng), vp.Colliding(6, 18, rng)...), vp.Colliding(14, 6, rng)...))
-	for _, fanout := range vp.Pick([]int{8, 256}, all) {
-		for hno := 0; hno < vp.Pick(10, 80); hno++ {
+	for _, fanout := range vp.Pick([]int{8, 16, 256, 1024}, all) {
+		for hno := 0; hno < vp.Pick(25, 80); hno++ {
 			id := fmt.Sprintf("history:fanout=%d,#%d", fanout, hno)
 			r.Eval(id)
 			bx := vp.NewBoxo()
